@@ -117,6 +117,16 @@ template <class S> static void special_cases(const char* name, int n, int salt) 
   if (std::string(name) != "DiagMatrix") product_mm((std::string(name) + ".T()").c_str(), "row-major", s.T(), Matrix(s), n, n, n);
 }
 
+// the same products with a sub-matrix view of a larger special matrix (dimension n, offset that of the parent of size n+2)
+template <class S> static void special_view_cases(const char* name, int n, int salt) {
+  S parent; fill_special(parent, n + 2, salt + 20);
+  S s = parent.submatrix_on_diagonal(1, n);
+  std::string nm = std::string(name) + "(sub)";
+  for (int rf = 0; rf < N_MFORM; rf += 3) { MHold r; make_matrix(rf, n, 3, salt + 1, r); product_mm(nm.c_str(), MFORMS[rf], s, r.view, n, n, 3); }
+  for (int lf = 0; lf < N_MFORM; lf += 3) { MHold l; make_matrix(lf, 2, n, salt + 2, l); product_mm(MFORMS[lf], nm.c_str(), l.view, s, 2, n, n); }
+  for (int vf = 0; vf < N_VFORM; ++vf) { VHold v; make_vector(vf, n, salt + 3, v); product_mv(nm.c_str(), VFORMS[vf], s, v.view, n, n); product_vm(VFORMS[vf], nm.c_str(), v.view, s, n, n); }
+}
+
 // ---- active operands: Jacobians
 template <bool A> struct Decl { template <class X> static void indep(Stack& s, const X& x) { s.independent(x); } };
 template <> struct Decl<false> { template <class X> static void indep(Stack&, const X&) { } };
@@ -241,6 +251,13 @@ int main(int argc, char** argv) {
     special_cases<DiagMatrix>("DiagMatrix", n, 7);
     special_cases<SpecialMatrix<double, internal::BandEngine<ROW_MAJOR, 1, 2>, false> >("Band<row,1,2>", n, 8);
     special_cases<SpecialMatrix<double, internal::BandEngine<ROW_MAJOR, 2, 0>, false> >("Band<row,2,0>", n, 9);
+    special_view_cases<SymmMatrix>("SymmMatrix", n, 1);
+    special_view_cases<SpecialMatrix<double, internal::SymmEngine<ROW_UPPER_COL_LOWER>, false> >("SymmMatrix(upper)", n, 2);
+    special_view_cases<SquareMatrix>("SquareMatrix", n, 3);
+    special_view_cases<UpperMatrix>("UpperMatrix", n, 4);
+    special_view_cases<LowerMatrix>("LowerMatrix", n, 5);
+    special_view_cases<TridiagMatrix>("TridiagMatrix", n, 6);
+    special_view_cases<SpecialMatrix<double, internal::BandEngine<ROW_MAJOR, 1, 2>, false> >("Band<row,1,2>", n, 8);
   }
   int af[] = {0, 1, 2, 7, 8};
   for (int a = 0; a < 5; ++a) for (int b = 0; b < 5; ++b) {
